@@ -390,7 +390,7 @@ Definition eq_at (s : fs) (arr : list byte) (n idx : N) : res bool :=
 (** find( str, pos) for FixedString / std::string / (const char*, pos, count) *)
 Definition find_arr (s : fs) (arr : list byte) (n pos : N) : res N :=
   let ln := len s in
-  if (ln <? pos +! n) || (ln =? 0) || (n =? 0) then Ok NPOS
+  if (ln <? n) || (ln -! n <? pos) || (ln =? 0) || (n =? 0) then Ok NPOS
   else scan_up fuel (fun idx => idx <=? ln -! n) (eq_at s arr n) pos.
 
 Definition find_ch (s : fs) (ch pos : N) : res N :=
